@@ -526,6 +526,16 @@ def canonical_form_table(F, R):
         # the function and its closures: the construction may be spelled as loops or as an iterator chain
         from rules.c02 import descendants
         family = [gp] + descendants(F, gp["id"])
+        # ... and new functions it hands to an iterator as a function item (`.map(CanonicalParameter::render)`)
+        newf = set((getattr(F, "new_helpers", None) or {}).get("new", []))
+        for f in list(family):
+            Bx = mir.Body(f, F)
+            for bi, w, r, t in Bx.calls:
+                for a in t["args"]:
+                    for o in Bx.origins(a):
+                        if o[0] == "fnitem" and o[1] in F.fns and o[1] in newf and F.fns[o[1]] not in family:
+                            family.append(F.fns[o[1]])
+                            family += descendants(F, o[1])
         tmpls, sorts, n_lower, amp = [], [], 0, []
         for f in family:
             B = mir.Body(f, F)
